@@ -32,6 +32,10 @@ func init() {
 			for i := 0; i < n; i++ {
 				cs = append(cs, Case{Kind: "gen", Seed: h.Mix(seed, 0xC01, uint64(i))})
 			}
+			// every DUPn / SWAPn / LOGn / PUSHn at the stack heights around its declared minimum and maximum
+			for _, f := range []h.Fork{h.Frontier, h.Shanghai} {
+				cs = append(cs, Case{Kind: "stackop", P: []int64{int64(f)}})
+			}
 			if !quick(tier) {
 				for _, op := range binOpsAll {
 					for f := h.Frontier; f <= h.Shanghai; f++ {
@@ -169,6 +173,38 @@ func runC01(c Case, tier string) (res CaseResult) {
 		}
 		res.Evals = int64(n)
 		_ = uint256.NewInt
+	case "stackop":
+		f := h.Fork(c.P[0])
+		n := 0
+		type sop struct {
+			op  byte
+			min int
+		}
+		var sops []sop
+		for i := 0; i < 16; i++ {
+			sops = append(sops, sop{byte(0x80 + i), i + 1}, sop{byte(0x90 + i), i + 2})
+		}
+		for i := 0; i < 5; i++ {
+			sops = append(sops, sop{byte(0xa0 + i), i + 2})
+		}
+		for _, so := range sops {
+			for _, hgt := range []int{0, so.min - 2, so.min - 1, so.min, so.min + 1, 1022, 1023, 1024} {
+				if hgt < 0 {
+					continue
+				}
+				a := h.NewAsm()
+				for i := 0; i < hgt; i++ {
+					a.Op(h.PC)
+				}
+				a.Op(so.op).PushU(0).Op(h.MSTORE).PushU(32).PushU(0).Op(h.RETURN)
+				dc := DualCase{World: h.BaseWorld([][]byte{a.Bytes()}), Env: h.EnvSpec{Fork: f},
+					Tx:   h.TxSpec{Entry: h.ECall, From: h.Sender, To: h.ContractAddr(0), Gas: 200000},
+					Desc: fmt.Sprintf("opcode %#x with %d words on the stack, fork=%s", so.op, hgt, f)}
+				dualCompare(&res, dc, c01Cfgs[:2])
+				n++
+			}
+		}
+		res.Evals = int64(n)
 	case "triop":
 		op, f, part := byte(c.P[0]), h.Fork(c.P[1]), int(c.P[2])
 		bs := h.BoundaryU256()
